@@ -235,7 +235,7 @@ func genCase(t *rapid.T) Case {
 }
 
 func TestHistories(t *testing.T) {
-	ev.Rapid(t, "histories", 8000, 600000, func(t *rapid.T) {
+	ev.Rapid(t, "histories", 8000, 12000000, func(t *rapid.T) {
 		c := genCase(t)
 		var st stats
 		err := ev.Try(func() error {
